@@ -71,38 +71,31 @@ func (f *Flat) SplitBools() *Flat {
 		switch st := n.Ast.(type) {
 		case *ast.AssignStmt:
 			if len(st.Lhs) == len(st.Rhs) {
-				for i, l := range st.Lhs {
+				for _, l := range st.Lhs {
 					o := objOf(info, l)
 					if o == nil || !isBoolLocal(o) {
 						continue
 					}
-					if _, ok := constBool(st.Rhs[i]); ok {
-						track[o] = true
-					} else {
-						bad[o] = true
-					}
+					// (an assignment of anything else makes the value unknown again from there on)
+					track[o] = true
 				}
 			} else {
 				for _, o := range assignedObjs(info, st) {
-					bad[o] = true
+					if isBoolLocal(o) {
+						track[o] = true
+					}
 				}
 			}
 		case *ast.ValueSpec:
-			for i, nm := range st.Names {
+			for _, nm := range st.Names {
 				o := info.Defs[nm]
 				if o == nil || !isBoolLocal(o) {
 					continue
 				}
 				if len(st.Values) == 0 {
 					track[o] = true
-				} else if i < len(st.Values) && len(st.Values) == len(st.Names) {
-					if _, ok := constBool(st.Values[i]); ok {
-						track[o] = true
-					} else {
-						bad[o] = true
-					}
 				} else {
-					bad[o] = true
+					track[o] = true
 				}
 			}
 		default:
@@ -122,9 +115,54 @@ func (f *Flat) SplitBools() *Flat {
 	if len(vars) == 0 {
 		return f
 	}
+	// (only locals that some condition tests are worth a dimension)
+	{
+		var testedVars []types.Object
+		for _, o := range vars {
+			for _, n := range f.Nodes {
+				if n.IsCond && usesObj(info, n.Ast, o) {
+					testedVars = append(testedVars, o)
+					break
+				}
+			}
+		}
+		// a copy chain (found's parameter ok := take's local ok): the sources of tested locals are kept too
+		for changed := true; changed; {
+			changed = false
+			for _, n := range f.Nodes {
+				as, ok := n.Ast.(*ast.AssignStmt)
+				if !ok || len(as.Lhs) != len(as.Rhs) {
+					continue
+				}
+				for i, l := range as.Lhs {
+					lo, ro := objOf(info, l), objOf(info, as.Rhs[i])
+					if lo == nil || ro == nil || !track[ro] || bad[ro] {
+						continue
+					}
+					inT, inS := false, false
+					for _, o := range testedVars {
+						if o == lo {
+							inT = true
+						}
+						if o == ro {
+							inS = true
+						}
+					}
+					if inT && !inS {
+						testedVars = append(testedVars, ro)
+						changed = true
+					}
+				}
+			}
+		}
+		vars = testedVars
+	}
+	if len(vars) == 0 {
+		return f
+	}
 	sort.Slice(vars, func(i, j int) bool { return vars[i].Pos() < vars[j].Pos() })
-	if len(vars) > 5 {
-		vars = vars[:5]
+	if len(vars) > 8 {
+		vars = vars[:8]
 	}
 	idx := map[types.Object]int{}
 	for i, o := range vars {
@@ -144,7 +182,7 @@ func (f *Flat) SplitBools() *Flat {
 	if !tested {
 		return f
 	}
-	type valuation [5]int8 // 0 unknown, 1 true, 2 false
+	type valuation [8]int8 // 0 unknown, 1 true, 2 false
 	var cond3 func(e ast.Expr, v valuation) (bool, bool)
 	cond3 = func(e ast.Expr, v valuation) (bool, bool) {
 		e = ast.Unparen(e)
@@ -203,10 +241,34 @@ func (f *Flat) SplitBools() *Flat {
 		return true, true
 	}
 	// refine: on the edge of `x` / `!x` the tracked local is known
-	refine := func(e ast.Expr, v valuation, taken bool) valuation {
+	var refine func(e ast.Expr, v valuation, taken bool) valuation
+	refine = func(e ast.Expr, v valuation, taken bool) valuation {
 		e = ast.Unparen(e)
 		if u, ok := e.(*ast.UnaryExpr); ok && u.Op == token.NOT {
 			e, taken = ast.Unparen(u.X), !taken
+		}
+		if b, ok := e.(*ast.BinaryExpr); ok {
+			switch {
+			case b.Op == token.LAND && taken, b.Op == token.LOR && !taken:
+				return refine(b.Y, refine(b.X, v, taken), taken)
+			case b.Op == token.EQL || b.Op == token.NEQ:
+				var other ast.Expr
+				if isNilIdent(info, b.Y) {
+					other = b.X
+				} else if isNilIdent(info, b.X) {
+					other = b.Y
+				}
+				if other != nil {
+					if i, ok := idx[objOf(info, other)]; ok && v[i] == 0 {
+						if (b.Op == token.NEQ) == taken {
+							v[i] = 1
+						} else {
+							v[i] = 2
+						}
+					}
+				}
+			}
+			return v
 		}
 		if id, ok := e.(*ast.Ident); ok {
 			if i, ok := idx[objOf(info, id)]; ok && v[i] == 0 {
@@ -226,6 +288,7 @@ func (f *Flat) SplitBools() *Flat {
 		switch st := n.Ast.(type) {
 		case *ast.AssignStmt:
 			if len(st.Lhs) == len(st.Rhs) {
+				nv, copied := v, map[int]bool{} // (parallel assignment: the right sides are read first)
 				for i, l := range st.Lhs {
 					if j, ok := idx[objOf(info, l)]; ok {
 						if b, isC := constBool(st.Rhs[i]); isC {
@@ -234,7 +297,21 @@ func (f *Flat) SplitBools() *Flat {
 							} else {
 								v[j] = 2
 							}
+						} else if k, isCopy := idx[objOf(info, st.Rhs[i])]; isCopy && isPlainIdent(st.Rhs[i]) {
+							nv[j] = v[k]
+							copied[j] = true
+						} else {
+							v[j] = 0
 						}
+					}
+				}
+				for j := range copied {
+					v[j] = nv[j]
+				}
+			} else {
+				for _, l := range st.Lhs {
+					if j, ok := idx[objOf(info, l)]; ok {
+						v[j] = 0
 					}
 				}
 			}
@@ -242,9 +319,15 @@ func (f *Flat) SplitBools() *Flat {
 			for i, nm := range st.Names {
 				if j, ok := idx[info.Defs[nm]]; ok {
 					v[j] = 2
-					if i < len(st.Values) {
-						if b, isC := constBool(st.Values[i]); isC && b {
-							v[j] = 1
+					if len(st.Values) > 0 {
+						v[j] = 0
+						if i < len(st.Values) && len(st.Values) == len(st.Names) {
+							if b, isC := constBool(st.Values[i]); isC {
+								v[j] = 2
+								if b {
+									v[j] = 1
+								}
+							}
 						}
 					}
 				}
@@ -339,4 +422,9 @@ func (f *Flat) SplitBools() *Flat {
 		}
 	}
 	return &g
+}
+
+func isPlainIdent(e ast.Expr) bool {
+	_, ok := ast.Unparen(e).(*ast.Ident)
+	return ok
 }
